@@ -298,7 +298,7 @@ def sections(tier):
     for sh in (SHAPES_Q if tier == 'quick' else SHAPES_T):
         secs.append(S('p2b:' + ''.join(map(str, sh)), p2b(sh), budget_s=170 if tier == 'quick' else 1500, replayer='p2b',
                       config='preene2betafree %s' % (sh,), timeout_ms=30000))
-    for c in (['X1s', 'X1', 'X4r'] if tier == 'quick' else ['X1s', 'X1', 'X4r', 'X2', 'X2b', 'X3']):
+    for c in (['X1s', 'X1', 'X4r', 'X1si'] if tier == 'quick' else ['X1s', 'X1', 'X4r', 'X1si', 'X2', 'X2b', 'X3']):
         secs.append(S('inter:' + c, interstitial(c), budget_s=170 if tier == 'quick' else 1200, replayer='inter', config=c,
                       timeout_ms=60000 if tier == 'quick' else 120000))
     for cfg in (['square-1', 'sc-1'] if tier == 'quick' else ['square-1', 'sc-1', 'square-2']):
